@@ -375,6 +375,14 @@ fn c09(tier: &str) -> Vec<String> {
             v.extend(queue_thresholds("long", tier));
             v.extend(queue_thresholds("caps", tier));
         }
+        // handles dropped concurrently by different threads, with the reference-count operations of
+        // the sink's `Arc`s as scheduling points (a last-handle test on a count is check-then-act)
+        for pr in ["D", "ED", "D,D"] {
+            if th || cap == "1" || cap == "u" {
+                v.push(format!("queue:cap={}:prog=SD0J:prod={}:arc=1:P={}", cap, pr, if th { 3 } else { 2 }));
+                v.push(format!("queue:cap={}:prog=E0SD0J:prod={}:arc=1:P=2", cap, pr));
+            }
+        }
         for pr in ["E,E", "ED,E", "EE,ED"] {
             v.push(format!("queue:cap={}:prog=SD0J:prod={}:P={}", cap, pr, if th { 3 } else { 2 }));
             v.push(format!("queue:cap={}:script=pp:prog=SD0J:prod={}:P={}", cap, pr, if th { 3 } else { 2 }));
